@@ -793,7 +793,8 @@ func nonNilAtInverse(f *ssa.Function, st *ssa.Store) bool {
 			continue
 		}
 		ld, ok := v.(*ssa.UnOp)
-		if !ok || ld.Op != token.MUL || ld.X != st.Addr {
+		if !ok || ld.Op != token.MUL || (ld.X != st.Addr && stripConv(ld.X) != stripConv(st.Addr)) {
+			// the same location: go/ssa has no CSE, so `*(*unsafe.Pointer)(ptr)` written twice is two conversions
 			continue
 		}
 		idx := 0
